@@ -301,7 +301,13 @@ func (s Segment) Backup(targetDir string) error {
 		return fmt.Errorf("backup index rel: %w", err)
 	}
 	targetIndex := filepath.Join(targetDir, indexName)
-	if err := copyFile(s.Index, targetIndex); err != nil {
+	switch err := copyFile(s.Index, targetIndex); {
+	case errors.Is(err, os.ErrNotExist):
+		// the index is derived data and might be missing, make sure the target does not keep an older one
+		if err := os.Remove(targetIndex); err != nil && !errors.Is(err, os.ErrNotExist) {
+			return fmt.Errorf("backup index delete: %w", err)
+		}
+	case err != nil:
 		return fmt.Errorf("backup index copy: %w", err)
 	}
 
